@@ -193,6 +193,9 @@ structure Inst where
   key : InstKey
   args : J
   optional : Bool := false
+  /-- sentinel: the call at `key.path` is outside the domain of the semantics (its
+  split collections disagree in length / key set: no invocation is well defined) -/
+  undefined : Bool := false
 deriving Repr, Inhabited
 
 /-- the outputs the stage instances actually produced -/
@@ -344,6 +347,17 @@ def callIndices (st : StructTable) (env : Env) (c : Call) : List Idx :=
     | [] => []
   else []
 
+/-- all split collections of a mapped call agree in their index sets (what
+`MergeMapCallSources` demands; for run-time-sized collections it can only be
+checked at run time).  Programs violating it are outside the domain of `den`. -/
+def splitsAgree (st : StructTable) (env : Env) (c : Call) : Bool :=
+  let vs := splitVals st env c
+  if vs.all isColl then
+    match vs with
+    | v :: rest => rest.all fun w => indicesOf w == indicesOf v
+    | [] => true
+  else true
+
 abbrev Runner := String → List String → List (String × Idx) → J → J × List Inst
 
 /-- denotation of one call statement inside a pipeline body: the type of its
@@ -363,6 +377,8 @@ def evalCall (st : StructTable) (nf : Nat) (insOf : String → List Param) (run 
     if !c.mapped then
       let r := run c.callee (path ++ [c.id]) forks (mkArgs st nf avs none)
       (ty, r.1, r.2)
+    else if !splitsAgree st env c then
+      (ty, .dnull, [⟨⟨path ++ [c.callee], forks⟩, .null, true, true⟩])
     else
       let ixs := callIndices st env c
       if ixs.isEmpty then
@@ -403,7 +419,7 @@ def runCallable (P : Program) (O : Oracle) (nf : Nat) :
     | none => (.null, [])
     | some (.stage _ _) =>
       let key : InstKey := ⟨path, forks⟩
-      (narrow P.table nf ⟨callee, 0, 0⟩ ((O key).getD .null), [⟨key, args, false⟩])
+      (narrow P.table nf ⟨callee, 0, 0⟩ ((O key).getD .null), [⟨key, args, false, false⟩])
     | some (.pipeline ins outs calls ret) =>
       let r := evalCalls P.table nf P.insOf (runCallable P O nf fuel) path forks calls
         ⟨ins, args, []⟩ []
@@ -464,5 +480,19 @@ def J.matchesFields : List (String × J) → List (String × J) → Bool
      | some o => J.matches x o
      | none => false) && J.matchesFields xs ows
 end
+
+/-! ## auxiliary notions used to state the meta-theorems (Props/C01.lean) -/
+
+/-- the oracle induced by a history: the outputs recorded for an instance -/
+def oracleOfHistory (h : List (InstKey × J)) : Oracle :=
+  fun k => (h.find? (fun e => e.1 == k)).map (·.2)
+
+/-- the unmapped call that instance `ix` of a mapped call stands for: every split
+binding replaced by (the literal of) its `ix`-th element -/
+def atIndex (st : StructTable) (env : Env) (c : Call) (ix : Idx) : Call :=
+  { c with
+    mapped := false
+    binds := c.binds.map fun b =>
+      if b.split then ⟨b.param, false, .lit (elemAt (eval st env b.exp) ix)⟩ else b }
 
 end Martian.Dataflow
